@@ -125,7 +125,35 @@ def run_tree_case(ctx):
         mon.add(s, f"s{nstate}", "state")
         nstate += 1
     produced = 0
+    if rng.random() < 0.6:
+        # prelude: the conversions that may legitimately do nothing to the numbers (copy of any state, to_complex of a state
+        # that is complex already, scale by one) must still hand out tensors of their own: derive, mutate one, observe the other
+        a = [lv for lv in mon.pool if lv.kind == "state"][0]
+        if not any(np.iscomplexobj(nd.tensor) for nd in a.mp.node_list):
+            mon.snapshot()
+            tree_states.complexify_ttns(rng, a.mp)
+            mon.trace.append(f"{a.name}.complexify")
+            mon.verify("harness-complexify", exempt=(a,), mutated=a)
+        how = ["to_complex", "copy", "scale-by-one"][int(rng.integers(0, 3))]
+        ctx.cls("prelude:" + how + "-of-a-complex-state")
+        res = (mon.call("TTNS.to_complex", a.mp.to_complex) if how == "to_complex" else
+               mon.call("TTNS.copy", a.mp.copy) if how == "copy" else mon.call("TTNS.scale", a.mp.scale, 1.0))
+        if res is not None:
+            if res is a.mp:
+                ctx.violate(f"tree|{how}|returns-one-of-its-inputs-instead-of-a-new-object", trace=mon.trace[-4:])
+            else:
+                res.compress_config = tree_states.lossless_cfg()
+                lv = mon.add(res, f"s{nstate}", "state")
+                nstate += 1
+                lv.derived_by, lv.parents = how.split("-")[0], (a,)
+                produced += 1
+                for target in ((lv, a) if rng.random() < 0.5 else (a, lv)):
+                    mutate(ctx, mon, target)
+                    if ctx.violations:
+                        break
     for step in range(int(rng.integers(4, 10))):
+        if ctx.violations:
+            break
         st = [lv for lv in mon.pool if lv.kind == "state"]
         a = st[int(rng.integers(0, len(st)))]
         op = int(rng.integers(0, 10))
